@@ -3,7 +3,7 @@
 From Coq Require Import String ZArith List Bool Lia ZifyBool.
 From V Require Import base.Cal rstr.RstrPrim rstr.RstrLemmas rstr.RstrModel rstr.RstrSpec
   rstr.RstrThmInt rstr.RstrThmWd rstr.RstrThmDate rstr.RstrThmParts rstr.RstrThmSpell rstr.RstrThmTop
-  rstr.RstrThmTzid.
+  rstr.RstrThmTzid rstr.RstrThmSet rstr.RstrThmFold rstr.RstrThmFold2.
 Import ListNotations.
 Open Scope Z_scope.
 
@@ -31,42 +31,53 @@ Fixpoint noTZ (s : str) : bool :=
 Lemma noTZ_tail x r : noTZ (x :: r) = true -> noTZ r = true.
 Proof. cbn [noTZ]. destruct r; [reflexivity|]. intro H. apply andb_true_iff in H as [_ H]. exact H. Qed.
 
-Lemma sw_pair x y r : startswith s_TZIDeq (x :: y :: r) = true -> x = 84 /\ y = 90.
+Lemma sw_pair x y r : startswith_ci s_TZIDeq (x :: y :: r) = true -> upc x = 84 /\ upc y = 90.
 Proof.
-  change s_TZIDeq with [84; 90; 73; 68; 61]. cbn [startswith]. intro H.
+  change s_TZIDeq with [84; 90; 73; 68; 61]. cbn [startswith_ci]. intro H.
   apply andb_true_iff in H as [H1 H]. apply andb_true_iff in H as [H2 _]. lia.
 Qed.
 
-Lemma noTZ_startswith s : noTZ s = true -> startswith s_TZIDeq s = false.
+Definition nolower (s : str) : Prop := Forall (fun c => is_lower c = false) s.
+
+Lemma upc_nolower c : is_lower c = false -> upc c = c.
+Proof. unfold upc. intros ->. reflexivity. Qed.
+
+(* without lower-case letters the case-insensitive test sees "TZ" only where it is written *)
+Lemma noTZ_startswith s : nolower s -> noTZ s = true -> startswith_ci s_TZIDeq s = false.
 Proof.
-  intro H. destruct s as [|x [|y r]]; [reflexivity| |].
-  { change s_TZIDeq with [84; 90; 73; 68; 61]. cbn [startswith]. apply andb_false_r. }
-  destruct (startswith s_TZIDeq (x :: y :: r)) eqn:E; [|reflexivity].
-  apply sw_pair in E as [-> ->]. cbn [noTZ] in H. rewrite !Z.eqb_refl in H. discriminate.
+  intros Hl H. destruct s as [|x [|y r]]; [reflexivity| |].
+  { change s_TZIDeq with [84; 90; 73; 68; 61]. cbn [startswith_ci]. apply andb_false_r. }
+  destruct (startswith_ci s_TZIDeq (x :: y :: r)) eqn:E; [|reflexivity].
+  apply sw_pair in E as [E1 E2]. inversion Hl as [|? ? Hx Hl']; subst. inversion Hl' as [|? ? Hy _]; subst.
+  rewrite (upc_nolower x Hx) in E1. rewrite (upc_nolower y Hy) in E2. subst.
+  cbn [noTZ] in H. rewrite !Z.eqb_refl in H. discriminate.
 Qed.
 
-Lemma scan_step x r : startswith s_TZIDeq (x :: r) = false -> tzid_scan O (x :: r) = tzid_scan O r.
+Lemma scan_step x r : startswith_ci s_TZIDeq (x :: r) = false -> tzid_scan O (x :: r) = tzid_scan O r.
 Proof. intro H. cbn [tzid_scan]. rewrite H. reflexivity. Qed.
 
-Lemma scan_noTZ : forall s k, noTZ s = true -> tzid_scan k s = [].
+Lemma scan_noTZ : forall s k, nolower s -> noTZ s = true -> tzid_scan k s = [].
 Proof.
-  induction s as [|x r IH]; intros k H; [destruct k; reflexivity|].
-  pose proof (noTZ_tail x r H) as Hr. destruct k as [|k].
-  - rewrite scan_step by (apply noTZ_startswith, H). apply IH, Hr.
-  - cbn [tzid_scan]. apply IH, Hr.
+  induction s as [|x r IH]; intros k Hl H; [destruct k; reflexivity|].
+  pose proof (noTZ_tail x r H) as Hr. inversion Hl as [|? ? _ Hlr]; subst. destruct k as [|k].
+  - rewrite scan_step by (apply noTZ_startswith; assumption). apply IH; assumption.
+  - cbn [tzid_scan]. apply IH; assumption.
 Qed.
 
-Lemma scan_prefix : forall pre tail, noTZ (pre ++ [84]) = true ->
+Lemma scan_prefix : forall pre tail, nolower pre -> noTZ (pre ++ [84]) = true ->
   tzid_scan O (pre ++ 84 :: 90 :: tail) = tzid_scan O (84 :: 90 :: tail).
 Proof.
-  induction pre as [|x pre IH]; intros tail H; [reflexivity|].
+  induction pre as [|x pre IH]; intros tail Hl H; [reflexivity|].
+  inversion Hl as [|? ? Hx Hl']; subst.
   cbn [app]. rewrite scan_step.
-  - apply IH. cbn [app] in H. apply (noTZ_tail x _ H).
+  - apply IH; [exact Hl'|]. cbn [app] in H. apply (noTZ_tail x _ H).
   - destruct pre as [|y pre'].
-    + cbn [app]. destruct (startswith s_TZIDeq (x :: 84 :: 90 :: tail)) eqn:E; [|reflexivity].
+    + cbn [app]. destruct (startswith_ci s_TZIDeq (x :: 84 :: 90 :: tail)) eqn:E; [|reflexivity].
       apply sw_pair in E as [_ E]. discriminate.
-    + cbn [app]. destruct (startswith s_TZIDeq (x :: y :: pre' ++ 84 :: 90 :: tail)) eqn:E; [|reflexivity].
-      apply sw_pair in E as [-> ->]. cbn [app noTZ] in H. rewrite !Z.eqb_refl in H. discriminate.
+    + cbn [app]. destruct (startswith_ci s_TZIDeq (x :: y :: pre' ++ 84 :: 90 :: tail)) eqn:E; [|reflexivity].
+      apply sw_pair in E as [E1 E2]. inversion Hl' as [|? ? Hy _]; subst.
+      rewrite (upc_nolower x Hx) in E1. rewrite (upc_nolower y Hy) in E2. subst.
+      cbn [app noTZ] in H. rewrite !Z.eqb_refl in H. discriminate.
 Qed.
 
 Lemma scan_skip : forall a b, tzid_scan (List.length a) (a ++ b) = tzid_scan O b.
@@ -75,7 +86,7 @@ Proof.
   cbn [List.length app tzid_scan]. apply IH.
 Qed.
 
-Lemma scan_hit x r name after : startswith s_TZIDeq (x :: r) = true ->
+Lemma scan_hit x r name after : startswith_ci s_TZIDeq (x :: r) = true ->
   span (fun c => negb (c =? 58)) (skipn 5 (x :: r)) = (name, after) -> name <> [] -> after <> [] ->
   tzid_scan O (x :: r) = name :: tzid_scan (4 + List.length name + 1) r.
 Proof.
@@ -83,15 +94,15 @@ Proof.
   destruct name; [congruence|]. destruct after; [congruence|]. reflexivity.
 Qed.
 
-Theorem tzid_findall_one pre name rest : noTZ (pre ++ [84]) = true -> name <> [] ->
-  has_char 58 name = false -> noTZ rest = true ->
+Theorem tzid_findall_one pre name rest : nolower pre -> noTZ (pre ++ [84]) = true -> name <> [] ->
+  has_char 58 name = false -> nolower rest -> noTZ rest = true ->
   tzid_findall (pre ++ s_TZIDeq ++ name ++ 58 :: rest) = [name].
 Proof.
-  intros Hpre Hne H58 Hrest. unfold tzid_findall.
+  intros Hlp Hpre Hne H58 Hlr Hrest. unfold tzid_findall.
   change (s_TZIDeq ++ name ++ 58 :: rest) with (84 :: 90 :: (73 :: 68 :: 61 :: name ++ 58 :: rest)).
-  rewrite scan_prefix by exact Hpre.
-  assert (S : startswith s_TZIDeq (84 :: 90 :: 73 :: 68 :: 61 :: name ++ 58 :: rest) = true).
-  { change s_TZIDeq with [84; 90; 73; 68; 61]. cbn [startswith]. rewrite !Z.eqb_refl. reflexivity. }
+  rewrite scan_prefix by assumption.
+  assert (S : startswith_ci s_TZIDeq (84 :: 90 :: 73 :: 68 :: 61 :: name ++ 58 :: rest) = true).
+  { change s_TZIDeq with [84; 90; 73; 68; 61]. cbn [startswith_ci]. reflexivity. }
   rewrite (scan_hit 84 (90 :: 73 :: 68 :: 61 :: name ++ 58 :: rest) name (58 :: rest) S);
     [|cbn [skipn]; apply span_colon, H58|exact Hne|discriminate].
   assert (L : (4 + List.length name + 1)%nat = List.length (90 :: 73 :: 68 :: 61 :: name ++ [58])).
@@ -99,7 +110,7 @@ Proof.
   replace (90 :: 73 :: 68 :: 61 :: name ++ 58 :: rest) with ((90 :: 73 :: 68 :: 61 :: name ++ [58]) ++ rest)
     by (cbn [app]; rewrite <- app_assoc; reflexivity).
   rewrite L.
-  rewrite scan_skip. rewrite (scan_noTZ rest O Hrest). reflexivity.
+  rewrite scan_skip. rewrite (scan_noTZ rest O Hlr Hrest). reflexivity.
 Qed.
 
 (* ---- Part B: a spelled date value and rule line never contain "TZ" ---- *)
@@ -278,7 +289,8 @@ Proof.
     cbn [app]. apply do_line_bare; assumption. }
   rewrite L2. cbn [a_rr a_rd a_xr a_xd a_start app].
   unfold assemble. cbn [a_rr a_rd a_xr a_xd a_start List.length isnil negb orb Z.of_nat Pos.of_succ_nat Z.ltb Z.compare Pos.compare Pos.compare_cont].
-  unfold parse_rule, single. rewrite Hi. fold v. unfold v. rewrite (spell_value_parse c k Hk). reflexivity.
+  unfold parse_rule, single. rewrite Hi. fold v. unfold v. rewrite (spell_value_parse c k Hk).
+  rewrite (wf_kw_freq k Hk). reflexivity.
 Qed.
 
 Definition with_tz (d : dt) (tag : Z) : dt := mkdt (dy d) (dmo d) (dd d) (dh d) (dmi d) (ds d) (dus d) tag.
@@ -310,7 +322,10 @@ Proof.
   assert (Hnames : tzid_findall T = [name]).
   { unfold T. change (s_DTSTART ++ s_TZIDparm ++ name ++ 58 :: dv ++ 10 :: l2)
       with ((s_DTSTART ++ [59]) ++ s_TZIDeq ++ name ++ 58 :: (dv ++ 10 :: l2)).
-    apply tzid_findall_one; [reflexivity|exact Hne| |apply rest_noTZ, Hk].
+    apply tzid_findall_one; [repeat constructor|reflexivity|exact Hne| | |apply rest_noTZ, Hk].
+    2: { apply Forall_app; split.
+         - eapply Forall_impl; [|exact Hdv]. intros ch Hc'. apply valc_not_lower. unfold valc. rewrite Hc'. reflexivity.
+         - constructor; [reflexivity|]. eapply Forall_impl; [|exact H2]. intros ch Hc'. apply linec_props, Hc'. }
     apply has_char_false. apply Forall_forall. intros x Hx. specialize (Hnm x Hx). unfold namec, is_ascii, is_space in *. lia. }
   assert (Hasc : forallb is_ascii T = true).
   { unfold T. rewrite !forallb_app. cbn [forallb]. rewrite !forallb_app. cbn [forallb].
@@ -329,16 +344,31 @@ Proof.
     change (upper s_DTSTART) with s_DTSTART. change (upper s_TZIDparm) with (59 :: s_TZIDeq).
     change (upc 58) with 58. change (upc 10) with 10.
     rewrite <- !app_assoc. cbn [app]. rewrite <- !app_assoc. reflexivity. }
-  unfold parse_rfc. fold T. rewrite Hasc. cbn [negb]. rewrite Hnames, Hup.
-  unfold parse_upper. rewrite Hf, Hc, Hu. cbn [orb].
-  assert (S1 : nosp l1).
-  { unfold l1. apply Forall_app; split; [repeat constructor|]. constructor; [reflexivity|].
-    apply Forall_app; split; [repeat constructor|]. apply Forall_app; split.
-    - eapply Forall_impl; [|exact Hun]. intros ch Hc'. apply Hc'.
+  (* the first line in its original case *)
+  set (L1 := s_DTSTART ++ s_TZIDparm ++ name ++ 58 :: dv).
+  assert (ET : T = L1 ++ 10 :: l2).
+  { unfold T, L1. rewrite <- !app_assoc. cbn [app]. rewrite <- ?app_assoc. reflexivity. }
+  assert (SL1 : nosp L1).
+  { unfold L1. apply Forall_app; split; [repeat constructor|]. apply Forall_app; split; [repeat constructor|].
+    apply Forall_app; split.
+    - apply Forall_forall. intros x Hx. specialize (Hnm x Hx). unfold namec in Hnm.
+      destruct (is_space x); [|reflexivity]. rewrite !andb_false_r in Hnm. cbn in Hnm. discriminate.
     - constructor; [reflexivity|]. apply linec_nosp, valc_linec, atoms_vals, Hdv. }
-  assert (N1 : l1 <> []) by discriminate.
+  assert (NL1 : L1 <> []) by discriminate.
+  assert (Hup1 : upper L1 = l1).
+  { unfold L1, l1. rewrite !upper_app. cbn [upper map].
+    fold (upper dv).
+    rewrite (txt_upper dv) by (apply linec_txtc, valc_linec, atoms_vals, Hdv).
+    change (upper s_DTSTART) with s_DTSTART. change (upper s_TZIDparm) with (59 :: s_TZIDeq).
+    change (upc 58) with 58. reflexivity. }
+  unfold parse_rfc. fold T. rewrite Hasc. cbn [negb].
+  rewrite ET in Hnames, Hup. rewrite ET.
   rewrite strip_nonnil_app by assumption.
-  unfold get_lines. rewrite words_two by (try assumption; apply linec_nosp, H2).
+  rewrite Hc, Hu. cbn [orb]. unfold get_lines.
+  rewrite words_two by (try assumption; apply linec_nosp, H2).
+  change (join [10] [L1; l2]) with (L1 ++ 10 :: l2). rewrite Hnames, Hup.
+  cbn [map]. rewrite Hup1, (txt_upper l2 (linec_txtc l2 H2)).
+  unfold parse_lines. rewrite Hf, Hc. cbn [orb].
   unfold shortcut. cbn [negb List.length andb Z.of_nat Pos.of_succ_nat Z.eqb Pos.eqb Pos.succ].
   apply general_second; try assumption.
   intro a. unfold l1.
@@ -363,3 +393,107 @@ Qed.
 Example ex_tzid_name : forallb namec (zs "America/Argentina/ComodRivadavia"%string) = true /\
   forallb namec (zs "Etc/GMT+5"%string) = true /\ forallb namec (zs "bad name"%string) = false.
 Proof. repeat split; reflexivity. Qed.
+
+(* ---- the same with folded lines (the TZID names are collected after unfolding, e7ff56b) ---- *)
+Lemma tzid_two_lines ev o c d k name tag S : wf_kw k = true ->
+  valid_dt d = true -> dus d = 0 -> dtz d = 0 ->
+  forallb namec name = true -> tz_get (o_tzids o) name = tag -> tag <> 0 ->
+  o_forceset o = false -> o_compatible o = false -> o_ignoretz o = false ->
+  parse_lines ev o [name] S
+    [s_DTSTART ++ 59 :: s_TZIDeq ++ upper name ++ 58 :: dt_spell (c_dshort c) d;
+     (if c_prefix c then s_RRULEc else []) ++ spell_value c k]
+  = single ev (o_cache o) (Some (with_tz d tag)) k.
+Proof.
+  intros Hk Hv Hus Htz Hnm Hg Ht Hf Hc Hi.
+  set (dv := dt_spell (c_dshort c) d).
+  rewrite forallb_forall in Hnm.
+  assert (Hun : Forall (fun ch => is_ascii ch = true /\ is_space ch = false /\ is_lower ch = false /\
+                                  ch <> 58 /\ ch <> 59 /\ ch <> 61) (upper name)).
+  { apply Forall_forall. intros ch Hin. unfold upper in Hin. apply in_map_iff in Hin as [x [<- Hx]].
+    apply namec_upc, Hnm, Hx. }
+  unfold parse_lines. rewrite Hf, Hc. cbn [orb].
+  unfold shortcut. cbn [negb List.length andb Z.of_nat Pos.of_succ_nat Z.eqb Pos.eqb Pos.succ].
+  apply general_second; try assumption.
+  intro a.
+  change (s_DTSTART ++ 59 :: s_TZIDeq ++ upper name ++ 58 :: dv)
+    with ((s_DTSTART ++ 59 :: s_TZIDeq ++ upper name) ++ 58 :: dv).
+  assert (U58 : has_char 58 (upper name) = false).
+  { apply has_char_false. eapply Forall_impl; [|exact Hun]. intros ch Hc'. apply Hc'. }
+  assert (U59 : has_char 59 (upper name) = false).
+  { apply has_char_false. eapply Forall_impl; [|exact Hun]. intros ch Hc'. apply Hc'. }
+  assert (U61 : has_char 61 (upper name) = false).
+  { apply has_char_false. eapply Forall_impl; [|exact Hun]. intros ch Hc'. apply Hc'. }
+  rewrite (do_line_DTSTART o [name] (s_DTSTART ++ 59 :: s_TZIDeq ++ upper name) [s_TZIDeq ++ upper name] dv a).
+  - unfold dv. rewrite (RstrThmTzid.tzid_param_partial o [name] name tag (c_dshort c) d U61); try assumption.
+    + reflexivity.
+    + unfold tzid_lookup. cbn [rev app find]. rewrite leqb_refl. reflexivity.
+  - rewrite split_on_app by reflexivity. rewrite split_on_nosep; [reflexivity|].
+    rewrite has_char_app, U59. reflexivity.
+  - rewrite has_char_app. change (59 :: s_TZIDeq ++ upper name) with ((59 :: s_TZIDeq) ++ upper name).
+    rewrite has_char_app, U58. reflexivity.
+Qed.
+
+Theorem rrulestr_tzid_folded ev o c d k name tag ps : wf_kw k = true ->
+  valid_dt d = true -> dus d = 0 -> dtz d = 0 ->
+  name <> [] -> forallb namec name = true -> tz_get (o_tzids o) name = tag -> tag <> 0 ->
+  o_forceset o = false -> o_compatible o = false -> o_ignoretz o = false -> o_unfold o = true ->
+  parse_rfc ev o (join [10] (map (fold_line ps 0)
+     [s_DTSTART ++ s_TZIDparm ++ name ++ 58 :: dt_spell (c_dshort c) d;
+      (if c_prefix c then s_RRULEc else []) ++ spell_value c k]))
+  = single ev (o_cache o) (Some (with_tz d tag)) k.
+Proof.
+  intros Hk Hv Hus Htz Hne Hnm Hg Ht Hf Hc Hi Hu.
+  destruct (spell_value_chars c k Hk) as [Hch [H58 Hvne]].
+  set (dv := dt_spell (c_dshort c) d). set (l2 := (if c_prefix c then s_RRULEc else []) ++ spell_value c k).
+  set (L1 := s_DTSTART ++ s_TZIDparm ++ name ++ 58 :: dv).
+  assert (Hdv : Forall (fun ch => atomc ch = true) dv) by apply dt_spell_atoms.
+  assert (H2 : Forall (fun ch => linec ch = true) l2).
+  { apply Forall_app; split; [|exact Hch]. destruct (c_prefix c); repeat constructor. }
+  assert (N2 : l2 <> []) by (unfold l2; destruct (c_prefix c); [discriminate|exact Hvne]).
+  pose proof Hnm as Hnm'. rewrite forallb_forall in Hnm.
+  (* every character of the first line is ASCII and not a blank *)
+  assert (C1 : Forall (fun ch => is_ascii ch = true /\ is_space ch = false) L1).
+  { unfold L1. apply Forall_app; split; [repeat constructor|]. apply Forall_app; split; [repeat constructor|].
+    apply Forall_app; split.
+    - apply Forall_forall. intros x Hx. specialize (Hnm x Hx). unfold namec in Hnm.
+      destruct (is_ascii x), (is_space x); cbn in Hnm; try discriminate. split; reflexivity.
+    - constructor; [split; reflexivity|]. eapply Forall_impl; [|exact Hdv]. intros ch Hc'.
+      destruct (linec_props ch) as [P1 [_ P3]]; [unfold linec, valc; rewrite Hc'; reflexivity|]. split; assumption. }
+  assert (C2 : Forall (fun ch => is_ascii ch = true /\ is_space ch = false) l2).
+  { eapply Forall_impl; [|exact H2]. intros ch Hc'. destruct (linec_props ch Hc') as [P1 [_ P3]]. split; assumption. }
+  assert (NL1 : L1 <> []) by discriminate.
+  assert (Hok : Forall okseg [L1; l2]).
+  { constructor; [split; [exact NL1|eapply Forall_impl; [|exact C1]; intros ch Hc'; apply Hc']|].
+    constructor; [split; [exact N2|eapply Forall_impl; [|exact C2]; intros ch Hc'; apply Hc']|constructor]. }
+  set (F := join [10] (map (fold_line ps 0) [L1; l2])).
+  assert (FA : forall s i, Forall (fun ch => is_ascii ch = true /\ is_space ch = false) s ->
+                           forallb is_ascii (fold_line ps i s) = true).
+  { induction s as [|ch s IH]; intros i Hs; [reflexivity|]. inversion Hs as [|? ? [A _] Hs']; subst.
+    cbn [fold_line]. rewrite forallb_app. cbn [forallb]. rewrite A, (IH (S i) Hs').
+    destruct (mem_nat i ps && negb (i =? 0)%nat); reflexivity. }
+  assert (Has : forallb is_ascii F = true).
+  { unfold F. cbn [map join]. rewrite forallb_app. cbn [app forallb]. rewrite (FA L1 0%nat C1), (FA l2 0%nat C2). reflexivity. }
+  assert (Hst : isnil (strip F) = false).
+  { unfold F. cbn [map join]. destruct L1 as [|c0 t1] eqn:E1; [congruence|].
+    rewrite fold_line_head. cbn [app]. apply strip_nonnil. inversion C1 as [|? ? [_ Hc0] _]; subst. exact Hc0. }
+  unfold parse_rfc. rewrite Has. cbn [negb]. rewrite Hst. rewrite Hu. cbn [orb].
+  unfold F. rewrite (unfold_fold_lines ps [L1; l2] Hok).
+  change (join [10] [L1; l2]) with (L1 ++ 10 :: l2).
+  assert (Hnames : tzid_findall (L1 ++ 10 :: l2) = [name]).
+  { unfold L1. rewrite <- !app_assoc. cbn [app]. rewrite <- ?app_assoc.
+    change (s_DTSTART ++ s_TZIDparm ++ name ++ 58 :: dv ++ 10 :: l2)
+      with ((s_DTSTART ++ [59]) ++ s_TZIDeq ++ name ++ 58 :: (dv ++ 10 :: l2)).
+    apply tzid_findall_one; [repeat constructor|reflexivity|exact Hne| | |apply rest_noTZ, Hk].
+    2: { apply Forall_app; split.
+         - eapply Forall_impl; [|exact Hdv]. intros ch Hc'. apply valc_not_lower. unfold valc. rewrite Hc'. reflexivity.
+         - constructor; [reflexivity|]. eapply Forall_impl; [|exact H2]. intros ch Hc'. apply linec_props, Hc'. }
+    apply has_char_false. apply Forall_forall. intros x Hx. specialize (Hnm x Hx). unfold namec, is_ascii, is_space in *. lia. }
+  rewrite Hnames. cbn [map].
+  assert (Hup1 : upper L1 = s_DTSTART ++ 59 :: s_TZIDeq ++ upper name ++ 58 :: dv).
+  { unfold L1. rewrite !upper_app. cbn [upper map]. fold (upper dv).
+    rewrite (txt_upper dv) by (apply linec_txtc, valc_linec, atoms_vals, Hdv).
+    change (upper s_DTSTART) with s_DTSTART. change (upper s_TZIDparm) with (59 :: s_TZIDeq).
+    change (upc 58) with 58. reflexivity. }
+  rewrite Hup1, (txt_upper l2 (linec_txtc l2 H2)).
+  apply tzid_two_lines; assumption.
+Qed.
